@@ -180,6 +180,30 @@ class C13(Prop):
     assumptions = ["insertions keep statements on their lines"]
 
 
+class C07(Prop):
+    id = "C07"
+    coq_targets = ["Properties/C07.vo", "Corr/C07.vo"]
+    props_file = "Properties/C07.v"
+    harness_cmd = "c07"
+    n = {"quick": 400, "thorough": 1}
+    search_seeds = 1
+    search_n = 800
+    bits = {4: "incorrect_standard_library_use / deprecated / must_use reported on a use inside the scope of a re-binding",
+            8: "a use outside the binding's scope is linted differently from the same program with the binding blanked out"}
+    classes = {}
+    rule = ("matrix: 12 library roots (functions, tables, must_use / deprecated members, deprecated parameters) x 9 binding "
+            "constructs (local with/without value, multi-name local, local function, parameter of a local function / of a function "
+            "expression, numeric for, generic for first/second name) x 14 use shapes (read, field, deep field, call statement, field "
+            "call, method call, assignments, deprecated member, bad argument, nil argument, nested argument, multiple assignment), each "
+            "inside and outside the scope; quick samples the matrix (every binding x use pair at least once), thorough enumerates all "
+            "1512 combinations; the scope model's gate is evaluated on both trees; non-trivial = the blanked-out baseline has a diagnostic")
+    trusted_base = SCOPE_TRUST[:3] + [
+        "proved: the gate drops exactly the nodes whose leading identifier resolved; renaming a binding away preserves every resolution status",
+        "the three lints' visit lists are oracles (what they say at a node is not modelled here; C05/C06 model the checks themselves)",
+    ]
+    assumptions = ["library = lua51 extended with deprecated globals and a deprecated parameter"]
+
+
 class C06(Prop):
     id = "C06"
     coq_targets = ["Properties/C06.vo", "Corr/C06.vo"]
@@ -204,4 +228,4 @@ class C06(Prop):
 from .c19 import C19  # noqa: E402
 from .c16 import C16  # noqa: E402
 
-ALL = {c.id: c for c in [C01, C02, C03, C06, C08, C09, C10, C13, C14, C15, C16, C19]}
+ALL = {c.id: c for c in [C01, C02, C03, C06, C07, C08, C09, C10, C13, C14, C15, C16, C19]}
